@@ -488,6 +488,11 @@ func (env *Env) eval(e ast.Expr, st *State) Val {
 		if tt == nil {
 			return v
 		}
+		if v.Ty != nil && !strings.HasPrefix(env.sortOf(v.Ty), "If_") && env.sortOf(v.Ty) == env.sortOf(tt) {
+			// the operand is already a concrete value of the asserted representation (an argument
+			// named before its conversion to the interface-typed parameter)
+			return Val{T: v.T, Ty: tt}
+		}
 		c.trust("type assertion results are uninterpreted functions of the interface value")
 		fn := "tassert_" + mangle(env.sortOf(v.Ty)) + "_" + mangle(env.sortOf(tt))
 		c.decls.declFun(fn, []string{env.sortOf(v.Ty)}, env.sortOf(tt))
@@ -1456,6 +1461,16 @@ func (env *Env) coerce(v Val, t types.Type, st *State) Val {
 				return Val{T: v.T, Ty: t}
 			}
 			env.c.decls.axiom(fn, fmt.Sprintf("(forall ((a %s) (b %s)) (! (=> (= (%s a) (%s b)) (= a b)) :pattern ((%s a) (%s b))))", st1, st1, fn, fn, fn, fn))
+			if isIf && strings.HasPrefix(st2, "If_") {
+				// an interface holding a value is not the nil interface; asserting it back to the
+				// boxed representation returns the boxed value (the dynamic-type check of x.(T)
+				// is not modelled: a failing assertion panics)
+				nilc := env.zero(t).T
+				env.c.decls.axiom(fn+"/nonnil", fmt.Sprintf("(forall ((a %s)) (! (not (= (%s a) %s)) :pattern ((%s a))))", st1, fn, nilc, fn))
+				ta := "tassert_" + mangle(st2) + "_" + mangle(st1)
+				env.c.decls.declFun(ta, []string{st2}, st1)
+				env.c.decls.axiom(fn+"/unbox", fmt.Sprintf("(forall ((a %s)) (! (= (%s (%s a)) a) :pattern ((%s a))))", st1, ta, fn, fn))
+			}
 			return Val{T: app(fn, v.T), Ty: t, Fn: v.Fn}
 		}
 		if st2 == "Int" && isErrorType(t) {
